@@ -690,8 +690,25 @@ def lab_run(ctx, s, prefix, cli_bin, runner_bin):
                 if q.stdout.strip() not in ('', '0'):
                     break
                 _t.sleep(0.05)
-        req = s['req']
         tracer = prefix + 'n0'
+        if s.get('kind') == 'labcli':
+            # S02: the command line surface; the flags come from the spec verbatim
+            q = subprocess.run(['timeout', '90', 'ip', 'netns', 'exec', tracer, cli_bin] + list(s['args']), stdout=subprocess.PIPE, stderr=subprocess.PIPE, text=True, errors='replace')
+            out = {'ok': False, 'protocol': '', 'runs': [], 'e2e_sent': 0, 'errmsg': q.stderr[-200:]}
+            if q.returncode == 0:
+                try:
+                    d = json.loads(q.stdout)
+                    out = {'ok': True, 'protocol': d.get('protocol', ''), 'e2e_sent': d['e2e_probe']['packets_sent'], 'errmsg': '',
+                           'runs': [{'dst': r['destination']['ip_address'], 'dport': r['destination']['port'],
+                                     'hops': [{'ttl': h['ttl'], 'addr': h['ip_address'] or ''} for h in r['hops']]} for r in (d['traceroute']['runs'] or [])]}
+                except Exception as e:
+                    out['errmsg'] = 'unparseable document: %s' % e
+            return [
+                {'event': 'Begin', 'n': 0, 't': 0, 'idx': 0, 'twin': '', 'scen': s['id']},
+                {'event': 'Params', 'n': 1, 't': 0, 'scen': s['id'], 'variant': 'labcli', 'entry': 'labcli', 'args': s['args'], 'expect_cli': s['expect_cli']},
+                dict({'event': 'Return', 'n': 2, 't': 0, 'scen': s['id'], 'panic': '', 'has_result': out['ok']}, **out),
+            ]
+        req = s['req']
         if s['cli']:
             cmd = ['ip', 'netns', 'exec', tracer, cli_bin, '--proto', req['protocol'], '-p', str(req['port']), '-q', str(req['queries']), '-Q', str(req['e2e']),
                    '--max-ttl', str(req['max_ttl']), '--timeout', str(req['timeout_ms'])]
